@@ -10,6 +10,8 @@
 (*               "none" returns nothing, "raise" raises, "bad" answers with an        *)
 (*               unknown callback id (a counter value is used up, nothing is sent),  *)
 (*               "resp" answers, which is one POST with outcome po                    *)
+(*   Leave       run() is left (interrupt from the keyboard, or the ValueError above): *)
+(*               the record writer is closed                                            *)
 (*   EndDispatch all handlers of the task were called                                *)
 (*   Sleep       the one sleep that ends an iteration                                 *)
 (* Without a task a client that is not silent sleeps and checks in again; a silent   *)
@@ -20,7 +22,7 @@
 (*   BUSY_ON_ERROR     a failed check-in goes straight to the next one (no sleep)     *)
 (*   ABORT_ON_POST_ERROR  a failed POST ends the task (remaining handlers not called) *)
 EXTENDS Naturals, Sequences, FiniteSets, TLC
-CONSTANTS MaxIter, Silents, COUNT_ON_SUCCESS, BUSY_ON_ERROR, ABORT_ON_POST_ERROR
+CONSTANTS MaxIter, Silents, COUNT_ON_SUCCESS, BUSY_ON_ERROR, ABORT_ON_POST_ERROR, DOUBLECLOSE
 NONE == 0
 ALL  == 999
 NOKEY == 1000
@@ -29,13 +31,13 @@ Table == (4 :> <<"resp", "raise", "resp">>) @@ (5 :> <<>>) @@ (0 :> <<"bad", "re
 Of(k) == [i \in 1..Len(Table[k]) |-> [key |-> k, i |-> i, kind |-> Table[k][i]]]
 HandlersFor(k) == IF Table[k] # <<>> THEN Of(k) ELSE Of(ALL)
 NoTask == {"neterr", "httperr", "empty", "noop"}
-GetOutcomes == NoTask \cup {"task4", "task5", "garbage"}
+GetOutcomes == NoTask \cup {"task4", "task5", "garbage", "interrupt"}
 PostOutcomes == {"ok", "neterr", "httperr"}
-VARIABLES pc, silent, iter, counter, nget, nsleep, posted, cur, todo, called, last
-vars == <<pc, silent, iter, counter, nget, nsleep, posted, cur, todo, called, last>>
+VARIABLES pc, silent, iter, counter, nget, nsleep, posted, cur, todo, called, closed, last
+vars == <<pc, silent, iter, counter, nget, nsleep, posted, cur, todo, called, closed, last>>
 
 Init == /\ pc = "get" /\ silent \in Silents /\ iter = 0 /\ counter = 0 /\ nget = 0 /\ nsleep = 0
-        /\ posted = <<>> /\ cur = NOKEY /\ todo = <<>> /\ called = <<>> /\ last = [ev |-> "init"]
+        /\ posted = <<>> /\ cur = NOKEY /\ todo = <<>> /\ called = <<>> /\ closed = 0 /\ last = [ev |-> "init"]
 
 Busy(o) == BUSY_ON_ERROR /\ o \in {"neterr", "httperr"}
 Get(o) ==
@@ -43,13 +45,14 @@ Get(o) ==
     /\ nget' = nget + 1 /\ called' = <<>>
     /\ last' = [ev |-> "get", out |-> o]
     /\ CASE o = "garbage" -> /\ pc' = "crashed" /\ UNCHANGED <<iter, cur, todo>>
+         [] o = "interrupt" -> /\ pc' = "stopped" /\ UNCHANGED <<iter, cur, todo>>
          [] o \in NoTask /\ Busy(o) ->
                              /\ pc' = "get" /\ iter' = iter + 1 /\ UNCHANGED <<cur, todo>>
          [] o \in NoTask /\ ~Busy(o) /\ ~silent -> /\ pc' = "sleep" /\ cur' = NOKEY /\ todo' = <<>> /\ UNCHANGED iter
          [] o \in NoTask /\ ~Busy(o) /\ silent  -> /\ pc' = "dispatch" /\ cur' = NONE /\ todo' = HandlersFor(NONE) /\ UNCHANGED iter
          [] o = "task4" -> /\ pc' = "dispatch" /\ cur' = 4 /\ todo' = HandlersFor(4) /\ UNCHANGED iter
          [] o = "task5" -> /\ pc' = "dispatch" /\ cur' = 5 /\ todo' = HandlersFor(5) /\ UNCHANGED iter
-    /\ UNCHANGED <<silent, counter, nsleep, posted>>
+    /\ UNCHANGED <<silent, counter, nsleep, posted, closed>>
 
 Call ==
     /\ pc = "dispatch" /\ todo # <<>>
@@ -67,13 +70,19 @@ Call ==
                    /\ counter' = IF COUNT_ON_SUCCESS /\ po # "ok" THEN counter ELSE counter + 1
                    /\ todo' = IF ABORT_ON_POST_ERROR /\ po # "ok" THEN <<>> ELSE Tail(todo)
                    /\ last' = [ev |-> "call", key |-> h.key, i |-> h.i, post |-> po, ctr |-> counter + 1]
-    /\ UNCHANGED <<pc, silent, iter, nget, nsleep, cur>>
+    /\ UNCHANGED <<pc, silent, iter, nget, nsleep, cur, closed>>
 
 EndDispatch == /\ pc = "dispatch" /\ todo = <<>> /\ pc' = "sleep" /\ last' = [ev |-> "enddispatch", key |-> cur]
-               /\ UNCHANGED <<silent, iter, counter, nget, nsleep, posted, cur, todo, called>>
+               /\ UNCHANGED <<silent, iter, counter, nget, nsleep, posted, cur, todo, called, closed>>
 Sleep == /\ pc = "sleep" /\ pc' = "get" /\ nsleep' = nsleep + 1 /\ iter' = iter + 1 /\ last' = [ev |-> "sleep"]
-         /\ UNCHANGED <<silent, counter, nget, posted, cur, todo, called>>
-Next == (\E o \in GetOutcomes : Get(o)) \/ Call \/ EndDispatch \/ Sleep
+         /\ UNCHANGED <<silent, counter, nget, posted, cur, todo, called, closed>>
+\* run() around the loop: an interrupt from the keyboard ends it quietly, an answer that does not decrypt ends it with ValueError; either
+\* way the record writer is closed, once (DOUBLECLOSE: closed in the handler of the interrupt and again on the way out)
+Leave == /\ pc \in {"crashed", "stopped"} /\ pc' = "left"
+         /\ closed' = closed + (IF DOUBLECLOSE /\ pc = "stopped" THEN 2 ELSE 1)
+         /\ last' = [ev |-> "leave", how |-> IF pc = "crashed" THEN "ValueError" ELSE "return"]
+         /\ UNCHANGED <<silent, iter, counter, nget, nsleep, posted, cur, todo, called>>
+Next == (\E o \in GetOutcomes : Get(o)) \/ Call \/ EndDispatch \/ Sleep \/ Leave
 Spec == Init /\ [][Next]_vars /\ WF_vars(Next)
 
 \* ---- properties
@@ -87,5 +96,7 @@ ExactlyOnce == [][last'.ev = "enddispatch" => called = HandlersFor(cur)]_vars
 \* the empty task only reaches handlers of a silent client
 EmptyTaskOnlySilent == (pc = "dispatch" /\ cur = NONE) => silent
 \* a misbehaving handler or a failing request never ends the loop: it goes on until the script is over, unless an answer did not decrypt
-GoesOn == <>(pc = "crashed" \/ (pc = "get" /\ iter = MaxIter))
+GoesOn == <>(pc = "left" \/ (pc = "get" /\ iter = MaxIter))
+\* the writer is closed exactly when run() is left, and once
+ClosedOnce == (closed = (IF pc = "left" THEN 1 ELSE 0))
 =============================================================================
